@@ -62,6 +62,10 @@ class Rel:
         self.cols = cols          # list of (qual, name); name may be None
         self.rows = rows          # list of tuples
         self.okeys = okeys        # None (unordered) or list of ints (tie classes, non-decreasing)
+        # partial order: set when the left input of a right/full join was ordered. Parallel to
+        # rows; an int for rows that come from a left row (their relative order is retained),
+        # None for rows padded from the right side (their position is not specified)
+        self.pokeys = None
         self.sort_exprs = sort_exprs   # [(desc, expr)] of the sort in effect (for range frames)
         self.colorder_unspec = False   # column ORDER not fixed by the documentation (after a non-aggregating group)
 
@@ -590,6 +594,7 @@ class Interp:
         vals = self._win_eval(items, rel, frame=t.get("_frame"))
         cols = dedup_names(named_items(items, rel.cols))
         r = Rel(cols, [tuple(v) for v in vals], rel.okeys)
+        r.pokeys = rel.pokeys
         _carry(rel, r)
         return r
 
@@ -599,6 +604,7 @@ class Interp:
         new = named_items(items, rel.cols)
         cols = add_named(list(rel.cols), new)
         r = Rel(cols, [tuple(row) + tuple(v) for row, v in zip(rel.rows, vals)], rel.okeys)
+        r.pokeys = rel.pokeys
         _carry(rel, r)
         return _carry_cols(rel, r)
 
@@ -606,6 +612,8 @@ class Interp:
         vals = self._win_eval([[None, t["cond"]]], rel, frame=t.get("_frame"))
         keep = [i for i, v in enumerate(vals) if truth(v[0]) is True]
         r = Rel(rel.cols, [rel.rows[i] for i in keep], None if rel.okeys is None else [rel.okeys[i] for i in keep])
+        if rel.pokeys is not None:
+            r.pokeys = [rel.pokeys[i] for i in keep]
         _carry(rel, r)
         return _carry_cols(rel, r)
 
@@ -684,6 +692,8 @@ class Interp:
         r = Rel(list(cols), rows, okeys if ordered else None)
         if ordered:
             _carry(rel, r)
+        elif rel.okeys is not None:
+            r.pokeys = okeys
         r.colorder_unspec = rel.colorder_unspec or right.colorder_unspec
         return r
 
@@ -852,5 +862,29 @@ def compare(model, actual_rows):
             if bag(model.rows[pos:end]) != bag(actual_rows[pos:end]):
                 return ("order_diff", "rows %d..%d: model %r executed %r" % (
                     pos, end, [canon_row(r) for r in model.rows[pos:end]][:4], [canon_row(r) for r in actual_rows[pos:end]][:4]))
+            pos = end
+    elif getattr(model, "pokeys", None) is not None:
+        # left order retained through a right/full join: the executed rows with the padded
+        # rows taken out must be a concatenation of the model's tie groups
+        extras = bag([r for r, k in zip(model.rows, model.pokeys) if k is None])
+        kept = [(r, k) for r, k in zip(model.rows, model.pokeys) if k is not None]
+        if any(canon in extras for canon in bag([r for r, _ in kept])):
+            return None                     # a padded row equals a positioned row: cannot tell them apart
+        left = dict(extras)
+        seq = []
+        for r in actual_rows:
+            c = canon_row(r)
+            if left.get(c, 0) > 0:
+                left[c] -= 1
+            else:
+                seq.append(r)
+        pos, n = 0, len(kept)
+        while pos < n:
+            end = pos
+            while end < n and kept[end][1] == kept[pos][1]:
+                end += 1
+            if bag([r for r, _ in kept[pos:end]]) != bag(seq[pos:end]):
+                return ("order_diff", "rows from the left input of a right/full join, positions %d..%d: model %r executed %r" % (
+                    pos, end, [canon_row(r) for r, _ in kept[pos:end]][:4], [canon_row(r) for r in seq[pos:end]][:4]))
             pos = end
     return None
